@@ -229,6 +229,7 @@ class C18(HistoryProperty):
                 op["only"] = None if rng.random() < 0.5 else [rng.choice(list(CORE) + list(OTHER))]
                 # labrea's own derived runtimes entered INSIDE the handler block must still carry the handlers
                 op["inner_ctx"] = rng.choice([None, None, "cache", "logging", "both"])
+                op["effect_fault"] = rng.random() < 0.15
             else:
                 op["mode"] = "subst"
                 op["target"] = rng.choice(targets)
@@ -245,7 +246,8 @@ class C18(HistoryProperty):
         mon = Monitor(res)
         mon.active = False
         sink = _Sink(mon)
-        loggers = [logging.getLogger(PROG_MODULE), logging.getLogger("labrea.dataset")]
+        # ("labrea": whatever a module of the library writes to a stdlib logger of its own ends up here by propagation)
+        loggers = [logging.getLogger(PROG_MODULE), logging.getLogger("labrea.dataset"), logging.getLogger("labrea")]
         old = [(lg.level, lg.propagate, list(lg.handlers)) for lg in loggers]
         for lg in loggers:
             lg.setLevel(logging.DEBUG)
@@ -258,6 +260,9 @@ class C18(HistoryProperty):
                 pool = {}  # the caller re-uses one options object for equal dictionaries (as users do)
                 did_pass = did_subst = False
                 for i, op in enumerate(case["ops"]):
+                    # an effect callback that raises (both worlds alike): whatever labrea has to say about it is said through a
+                    # LogRequest, like everything else
+                    w.armed_kinds = ref.armed_kinds = ({"effect": "ValueError"} if op.get("effect_fault") and op.get("mode") == "pass" else {})
                     res.bump("ops")
                     key = U.crepr_json(op["o"])
                     o = pool.setdefault(key, copy.deepcopy(op["o"]))
@@ -271,6 +276,8 @@ class C18(HistoryProperty):
                         did_subst = True
                         continue
                     b0, r0 = len(w.log.events), len(ref.log.events)
+                    # an effect callback that raises (both worlds alike): whatever labrea has to say about it is said
+                    # through a LogRequest, like everything else
                     inner = {"cache": [labrea.cache.disabled], "logging": [labrea.logging.disabled], "both": [labrea.logging.disabled, labrea.cache.disabled]}.get(op.get("inner_ctx"), [])
                     with contextlib.ExitStack() as st:
                         for c in inner:
